@@ -82,8 +82,8 @@ SAFETY_ASSUME = ["unbounded digit-array jobs: arrays are exact-size heap objects
 for W in (8, 16, 32, 64):
     tier = "quick" if W in (8, 64) else "thorough"
     for fn, lf in R1A.items():
-        if fn in ("l_shift", "r_shift") and W != 8:
-            continue  # memmove/memset with symbolic length: attempted at W = 8 only (thorough, no trace)
+        if fn in ("l_shift", "r_shift"):
+            continue  # memmove/memset with symbolic length: no result in 55 min at W = 8 even with "trace": false (not_covered)
         full = "bn_digits_" + fn
         kw = {}
         if lf:
@@ -182,7 +182,7 @@ for key, full, repl, qn, tn in R2:
             enforce=[full], replace=repl, functions=[full], route="bounded", backend="kissat",
             assumptions=[] if key.startswith("digits_") else [DISTRIB_ASSUME],
             bound="W = 8, capacity %d digits (symbolic count, digits, stale digits, aliasing); callees replaced by their rung 0/1 contracts" % nd,
-            tier=tier, timeout=600, cbmc=["--unwind", str(max(nd + 2, W + 2)), "--unwindset", "__CPROVER_contracts_write_set_check_assigns_clause_inclusion.0:40,__CPROVER_contracts_write_set_check_frees_clause_inclusion.0:40", "--unwinding-assertions", "--object-bits", "10"])
+            tier=tier, timeout=600, cbmc=["--unwind", str(max(nd + 2, W + 2)), "--unwindset", "vf_d_clz.0:10,vf_d_ctz.0:10,vf_d_popcount.0:10,__CPROVER_contracts_write_set_check_assigns_clause_inclusion.0:40,__CPROVER_contracts_write_set_check_frees_clause_inclusion.0:40", "--unwinding-assertions", "--object-bits", "10"])
 
 DIV_REPL = ["bn_is_zero", "bn_cmp", "bn_assign_digit", "bn_assign_zero", "bn_assign", "bn_digit_clz", "bn_assign_init",
             "bn_init_digits__int", "bn_l_shift", "bn_r_shift", "bn_digit_div__int_short", "bn_digits_sub_digit_mult__int",
@@ -245,14 +245,14 @@ for key, full, repl, nonlinear in R3:
             route="bounded",
             bound="W = %d, build with BN_MAX_DIGITS = %d (every capacity, digit count, stale digits and aliasing of that build); callees replaced by their contracts" % (W, nd),
             tier=tier, timeout=600, backend="kissat" if nonlinear else "sat",
-            cbmc=["--unwind", str(nd + 2), "--unwindset", "__CPROVER_contracts_write_set_check_assigns_clause_inclusion.0:40,__CPROVER_contracts_write_set_check_frees_clause_inclusion.0:40", "--unwinding-assertions", "--object-bits", "10"])
+            cbmc=["--unwind", str(nd + 2), "--unwindset", "vf_d_clz.0:10,vf_d_ctz.0:10,vf_d_popcount.0:10,__CPROVER_contracts_write_set_check_assigns_clause_inclusion.0:40,__CPROVER_contracts_write_set_check_frees_clause_inclusion.0:40", "--unwinding-assertions", "--object-bits", "10"])
 
 # ------------------------------------------------------------------ rung 3, loop functions: safety / error propagation / domain (modular)
 CL = "vf_d_clz.0:10,vf_d_ctz.0:10,vf_d_popcount.0:10,__CPROVER_contracts_write_set_check_assigns_clause_inclusion.0:40,__CPROVER_contracts_write_set_check_frees_clause_inclusion.0:40"
 def loopset(fn, n):
     return ",".join("%s.%d:%d" % (fn, k, n) for k in range(16))
 R3L = [
- ("mod_div", "bn_mod_div", ["bn_assign_init", "bn_mod_inv_bin", "bn_mod_mult"], "", "bounded", "W = 8, build with BN_MAX_DIGITS = 2; callees (incl. the unproved bn_mod_inv_bin contract) replaced by their contracts"),
+ ("mod_div", "bn_mod_div", ["bn_assign_init", "bn_mod_inv_bin", "bn_mod_mult"], "", "bounded", "W = 8, build with BN_MAX_DIGITS = 2; callees replaced by their contracts (bn_mod_inv_bin: status, domain, range - proved by r3.bn_mod_inv_bin.loops)"),
 ]
 for key, full, repl, us, route, bound in R3L:
     W, nd = 8, 2
@@ -305,15 +305,8 @@ for key, full, repl, bitlen, extra in R3LC2:
         tier="thorough", timeout=3600, timeout_thorough=3600, mem_gb=24,
         cbmc=["--object-bits", "10"])
 
-# bn_mod_inv_bin with the textbook invariant: value clause bn' != 0 and bn' * bn == 1 (mod m), operands < 2^8
-job("r3.bn_mod_inv_bin.value.w8.n5", "bn3.c",
-    cfg(8, True, bitlen=40, extra=["VF_FN_mod_inv_bin", "VF_MAXVAL_DIGITS=1"] + vb(40)),
-    enforce=["bn_mod_inv_bin"], replace=["bn_cmp", "bn_init", "bn_assign", "bn_assign_digit", "bn_r_shift", "bn_add", "bn_mod_sub"],
-    functions=["bn_mod_inv_bin"], route="bounded", backend="kissat",
-    bound="W = 8, BN_MAX_DIGITS = 5, operand and modulus < 2^8; loops closed by loop contracts with the invariant x1*a == u, x2*a == v (mod m)",
-    loops=loops_file("mod_inv_bin_value", ["bn_mod_inv_bin"], maxd=5, variant="inv_value"), foreach=[{"SZ": 1, "MAXD": 5}],
-    tier="thorough", timeout=5400, timeout_thorough=5400, mem_gb=24, cbmc=["--object-bits", "10"])
-
+# (bn_mod_inv_bin with the textbook invariant x1*a == u, x2*a == v (mod m) - loopdefs.inv_value_loops - ran 45 min on kissat
+# without a result at operands < 2^8: the value clause of the inverse stays unproved, see not_covered)
 # bn_mod_legendre: straight-line over its callees
 job("r3.bn_mod_legendre.w8.n2", "bn3.c", cfg(8, True, bitlen=16, extra=["VF_FN_mod_legendre"] + vb(16)),
     enforce=["bn_mod_legendre"], replace=["bn_assign_init", "bn_mod", "bn_sub_digit", "bn_r_shift", "bn_mod_exp", "bn_cmp"],
@@ -372,7 +365,7 @@ NOT_COVERED = [
  "portable bn_digit_mult__int (no BN_CC_MULL_DIV), general Knuth-M path, W >= 16: undecided by MiniSat, CaDiCaL, kissat, z3, cvc5 (> 300 s each, also with a term-aligned spec); W = 8 is proved, W = 16 is enumerated natively (all 2^32 pairs, reported as exhaustive_native, not as a deductive obligation), W = 32/64 shortcut paths (0, 1, power of two) only",
  "bn_digit_div__int / bn_digit_div__int_short: proved at W = 8 only (both builds, kissat 40-180 s); W = 16 and W = 32 did not finish in 600 s (divider/multiplier miter), W = 64 not attempted further - not registered; the wrapper bn_digit_div is proved against the contract of bn_digit_div__int at W = 8, 16, 32 (W = 64: > 600 s, not registered)",
  "128-bit digits (no double-width type): not built",
- "capacities above the verified ones: value contracts are proved for <= 4 digits (8 digits at W=8 in the thorough tier); the unbounded jobs prove memory safety / frame / termination / carry range only; bn_digits_l_shift / bn_digits_r_shift have NO unbounded job (memmove/memset with symbolic length: > 240 s on every attempt, also with arrays capped at 64 digits) - only the bounded value jobs",
+ "capacities above the verified ones: value contracts are proved for <= 4 digits (8 digits at W=8 in the thorough tier); the unbounded jobs prove memory safety / frame / termination / carry range only; bn_digits_l_shift / bn_digits_r_shift have NO unbounded job (memmove/memset with symbolic length: > 240 s on every attempt, also with arrays capped at 64 digits; second round: no result in 55 min at W = 8 with \"trace\": false) - only the bounded value jobs",
  "intra-object overflow: cbmc's bounds check for a member array reached through a pointer is object-granular, so an index such as num[(size_t)-1] that stays inside the bn_t object is not flagged (bn_sub with both operands zero reads num[digits - 1] with digits == 0: value unused, not detected by any obligation, not confirmed by UBSan either)",
  "bn_div is proved (enforced) for W = 8 with dividend capacity and divisor of 1 and 2 digits, all remainder forms; for that capacity the bn_mod / bn_mod_* / bn_gcd proofs no longer rest on an assumed bn_div contract. Larger capacities (3+ digits, other widths): bn_div's contract is still only assumed there (symbolic execution of the nested unwound loops with contract instrumentation needs > 9 GB and ~10 min already at 2 digits)",
  "rung 2 is W = 8 only and <= 4 digits (bn_mult <= 3 digits); the digit-array multiply functions are proved against the sum of per-digit products, the closed product form used by their callers rests on the distributivity identity listed in those jobs' assumptions",
